@@ -102,6 +102,12 @@ static inline sv_t sv_substr(sv_t s, size_t pos, size_t n){
     __CPROVER_assert(v->iter==0,"vector modified during range-for (iterator invalidation)"); \
     __CPROVER_assert(i<=j && j<=v->size,"vector::erase(first,last) range valid (else UB)"); \
     for(size_t k_=0;k_<(CAP);++k_){ if(k_>=i && k_+(j-i)<v->size) v->data[k_]=v->data[k_+(j-i)]; } v->size=v->size-(j-i); } \
+  /* list::splice(where, same list, what): move element `what` in front of position `where` */ \
+  static inline void NAME##_splice1(NAME* v, size_t where, size_t what){ \
+    __CPROVER_assert(what < v->size && where <= v->size,"list::splice positions valid (else UB)"); \
+    T x_ = v->data[what]; size_t w_ = (what < where) ? where - 1 : where; \
+    for(size_t k_=0;k_<(CAP);++k_){ if(k_>=what && k_+1<v->size) v->data[k_]=v->data[k_+1]; } \
+    for(size_t k_=(CAP);k_>0;--k_){ if(k_-1>w_ && k_-1<v->size) v->data[k_-1]=v->data[k_-2]; } v->data[w_]=x_; } \
   static inline void NAME##_resize(NAME* v, size_t n, T x){ \
     __CPROVER_assert(n <= (CAP),"capacity bound of the check exceeded"); \
     for(size_t k_=0;k_<(CAP);++k_){ if(k_>=v->size && k_<n) v->data[k_]=x; } v->size=n; }
